@@ -22,7 +22,7 @@ ROOT = os.path.dirname(os.path.dirname(os.path.abspath(__file__)))
 EXIT_OK, EXIT_VIOLATION, EXIT_INCONCLUSIVE, EXIT_HARNESS_ERROR = 0, 1, 2, 3
 
 CHUNK_PATHS = 150
-CHUNK_SECONDS = 20.0
+CHUNK_SECONDS = 4.0
 
 
 def _exc_name(e):
@@ -116,7 +116,7 @@ def _worker(task):
             res["inconclusive"].append(f"step budget exceeded ({pr.value})")
         viols = classify(h, pr)
         for label, detail in viols:
-            out = api.run_native(h, params, pr.inputs)
+            out = api.run_native(h, params, pr.inputs, measure=(label == "budget"))
             res["violations"].append(dict(label=label, detail=detail, inputs=pr.inputs, confirmed=native_confirms(h, label, out),
                                           native=repr(out)[:300]))
         had_check_violation = any(v == "violated" for _, v in pr.checks)
@@ -388,7 +388,7 @@ def replay(prop, path):
     h = next(x for x in api.HARNESSES[prop] if x.name == d["harness"])
     jobs = h.jobs(d.get("tier", "quick"))
     params = jobs[d["pidx"]]
-    out = api.run_native(h, params, d["inputs"])
+    out = api.run_native(h, params, d["inputs"], measure=(d["label"] == "budget"))
     print("replay:", d["harness"], d["label"], "->", out)
     if native_confirms(h, d["label"], out):
         print(f"VIOLATION property={prop} replay={path}")
